@@ -5,7 +5,7 @@ Not decided: wrap-around at the top of the 32-bit address space; callbacks."""
 from .. import cast, sym, lin
 from ..sym import C, fmt, linearize as L
 from ..lin import Lin
-from .regs import Regs, T, strip_cast, size_facts, scan_rule, for_headers
+from .regs import Regs, T, strip_cast, size_facts, scan_rule, for_headers, wrap_free
 from .c02 import walker, code_of, addr_of, ADDR, N, BUF, loop_const_invariant
 
 
@@ -281,9 +281,23 @@ def rule_c(ck, R):
                 a = it[0].args
                 if a[0] != T or a[3] != ('v', 'f') or a[4] != ('v', 'arg'):
                     bad = 'reg_iterate called with %s' % [fmt(x) for x in a]
-                d = L(a[2]) - (L(ADDR) + L(off) - 1)
-                if not (d.is_const() and d.c == 0):
-                    bad = 'iteration end is %s, expected addr + off - 1' % fmt(a[2])
+                # the last address of the range is min(addr + off - 1, top of the address space), as a mathematical value
+                TOP = (1 << 32) - 1
+                facts = R.eng.path_facts(p)
+                want = L(ADDR) + L(off) - 1
+                d = L(a[2]) - want
+                exact = d.is_const() and d.c == 0
+                inside = R.eng.entails(facts, want - TOP)
+                beyond = R.eng.entails(facts, Lin.const(TOP + 1) - want)
+                if exact and not inside and not beyond:
+                    pass                 # written as the plain sum: whether it can wrap is the matter of C03.e
+                elif exact and inside:
+                    pass
+                elif a[2] == C(TOP) and beyond:
+                    pass
+                else:
+                    bad = 'iteration end is %s under {%s}, expected addr + off - 1 (cut at the top of the address space)' % (
+                        fmt(a[2]), '; '.join(fmt(c) for c in conds if sym.contains(c, off))[:160])
                 if strip_cast(p.ret) != it[0].result:
                     bad = 'iteration result not returned'
                 if not fr or 'handle' not in fmt(a[1]) or not sym.contains(a[1], fr[-1].result):
@@ -385,7 +399,8 @@ def run(ck):
     ck.rule('C03.b', 'read walker: cursor/buffer/count advance together; readable arm and zero-fill arm both fill exactly [buffer cursor, +step)')
     ck.rule('C03.c', 'range iteration: start register = first register not wholly below addr, searched to the end of the table; ascending while register address <= addr+off-1; callback result table')
     ck.rule('C03.d', 'ra_addr_is_part_of == base <= addr < base+size; area lookup returns the first containing area')
-    ck.not_decided += ['wrap-around at the top of the 32-bit address space', 'area read callbacks / iteration callbacks (user code)']
+    ck.rule('C03.e', 'the end of the iteration range (addr + off - 1) cannot wrap around 2^32: a range reaching beyond the last address is cut there, not folded to the bottom of the address space')
+    ck.not_decided += ['wrap-around at the top of the 32-bit address space in the block walkers and range tests (areas ending at 2^32, see known findings of C04.g)', 'area read callbacks / iteration callbacks (user code)']
     ck.assumptions += ['table invariants established by register_init (C04)', 'rds_size of a real register is 1, 2 or 4 (C01.a)']
     R = Regs(ck)
     rule_a(ck, R)
@@ -393,3 +408,4 @@ def run(ck):
     rule_b(ck, R)
     rule_c(ck, R)
     rule_d(ck, R)
+    wrap_free(R, 'C03.e', 'register_foreach_in')
